@@ -530,7 +530,8 @@ pub fn exec(sc: &Sc) -> Outcome {
 }
 
 pub fn scenarios(tier: Tier) -> Vec<Sc> {
-    let thorough = tier == Tier::Thorough;
+    let thorough = tier >= Tier::Thorough;
+    let deep = tier >= Tier::Deep;
     let mut out = vec![];
     let base = Sc { server_role: true, authority: "localhost".into(), path: "/".into(), headers: vec![], decision: 0, skip: 0, opens: vec![], dgrams: vec![], peer_window: 0 };
     let authorities = ["localhost", "example.com:4433", "10.0.0.1:65535", "[fd00::1]"];
@@ -576,9 +577,33 @@ pub fn scenarios(tier: Tier) -> Vec<Sc> {
             out.push(Sc { server_role: role, dgrams: vec![l], ..base.clone() });
         }
     }
+    if deep {
+        for role in [true, false] {
+            // every header singleton of the pools in both roles, under two decisions; pairs on a stride; many streams
+            for (i, n) in names.iter().enumerate() {
+                for (j, v) in values.iter().enumerate() {
+                    out.push(Sc { server_role: role, headers: vec![(n.clone(), v.clone())], decision: if role { 1 } else { 0 }, authority: "example.com:4433".into(), path: "/a/b?x=1".into(), ..base.clone() });
+                    if (i + j) % 3 == 0 {
+                        let n2 = &names[(i * 7 + j + 1) % names.len()];
+                        if n2 != n {
+                            out.push(Sc { server_role: role, headers: vec![(n.clone(), v.clone()), (n2.clone(), values[(i + 2 * j) % values.len()].clone())], ..base.clone() });
+                        }
+                    }
+                }
+            }
+            for k in [10usize, 25, 45] {
+                out.push(Sc { server_role: role, opens: (0..2 * k).map(|i| (i % 2 == 0, (i * 37) % 1500)).collect(), dgrams: (0..k).map(|i| (i * 53) % 1100).collect(), ..base.clone() });
+            }
+            for l in 0..=1150usize {
+                if l % 7 == 0 || l < 70 || l > 1090 {
+                    out.push(Sc { server_role: role, dgrams: vec![l], opens: vec![(l % 2 == 0, l)], ..base.clone() });
+                }
+            }
+        }
+    }
     // the raw peer grants only a few bytes of stream credit at a time
     for role in [true, false] {
-        for w in if thorough { vec![1u32, 2, 3, 5, 16, 17, 64] } else { vec![1u32, 3, 16] } {
+        for w in if deep { (1u32..=48).chain([63, 64, 65, 127, 128, 200]).collect() } else if thorough { vec![1u32, 2, 3, 5, 16, 17, 64] } else { vec![1u32, 3, 16] } {
             out.push(Sc { server_role: role, peer_window: w, ..base.clone() });
             out.push(Sc { server_role: role, peer_window: w, decision: if role { 1 } else { 0 }, headers: vec![("x-long".into(), "v".repeat(70))], opens: vec![(false, 40), (true, 40)], dgrams: vec![5], ..base.clone() });
             if role {
@@ -587,11 +612,11 @@ pub fn scenarios(tier: Tier) -> Vec<Sc> {
         }
     }
     // session ids across varint boundaries (server role: the raw client chooses the CONNECT stream)
-    let skips: Vec<usize> = if thorough { vec![1, 15, 16, 17, 63, 64, 65, 90] } else { vec![1, 15, 16, 64] };
+    let skips: Vec<usize> = if deep { (1..=95).collect() } else if thorough { vec![1, 15, 16, 17, 63, 64, 65, 90] } else { vec![1, 15, 16, 64] };
     for s in skips {
         out.push(Sc { skip: s, opens: vec![(false, 3), (true, 3)], dgrams: vec![2, 70], ..base.clone() });
     }
-    out
+    dedup(out, |s| s.to_json().to_string())
 }
 
 pub fn run_check(args: &Args) -> i32 {
